@@ -572,6 +572,32 @@ func c16Validate(c *Ctx, cases []c16Case, shards int, withTable bool, report fun
 		bufs, counts = bufs[:shards], counts[:shards]
 	}
 	if withTable {
+		// interning at scale: equal tokens stay one object however many distinct tokens were interned in between. The big
+		// inputs are lexed outside the recorder (their tens of thousands of tokens stay out of the table); the small input
+		// lexed before and after them must come back as the same objects, or the table gets two ids for one (type, text).
+		small := c16Case{"alpha = 42 // note\n\"text\" 0.5 /* bc */", false}
+		_, _ = rec.lex(small, 0)
+		for _, n := range []int{5000, 17000, 70000} {
+			var sb strings.Builder
+			for k := 0; k < n; k++ {
+				fmt.Fprintf(&sb, "v%d_%d %d \"s%d\" // c%d\n", n, k, 1000000+n*100+k, k, k)
+			}
+			for _, line := range []bool{false, true} {
+				var l *lexer.Lexer
+				if line {
+					l = lexer.NewLineMode(sb.String())
+				} else {
+					l = lexer.New(sb.String())
+				}
+				for k := 0; k < 5*n+10; k++ {
+					if t := l.NextToken(); t == nil || c16IsEnd(t) {
+						break
+					}
+					rec.ntok++
+				}
+			}
+			_, _ = rec.lex(small, 0)
+		}
 		bufs[shards-1] = rec.appendTable(bufs[shards-1])
 		counts[shards-1]++
 	}
